@@ -98,6 +98,9 @@ func guardSites(f *ssa.Function, helpers map[*ssa.Function]bool) []guardSite {
 	eachInstr(f, func(_ *ssa.BasicBlock, i ssa.Instruction) {
 		switch x := i.(type) {
 		case *ssa.Panic:
+			if reraises(x) {
+				return // hands on a panic that was recovered elsewhere: counted at its origin
+			}
 			out = append(out, guardSite{f, i, "panic"})
 		case ssa.CallInstruction:
 			if k := exitCallKind(x); k != "" {
@@ -259,6 +262,7 @@ func runGuard(p *Program, entries []*ssa.Function, exclude ...*ssa.Function) *gu
 	for _, f := range exclude {
 		excl[f] = true
 	}
+	guardProg = p
 	cg := p.CallGraph()
 	helpers := panicHelpers(p)
 	barrierCache := map[*ssa.Function][]*ssa.Defer{}
@@ -523,3 +527,65 @@ func panicMessage(pn *ssa.Panic) string {
 }
 
 var _ = token.NoPos
+
+// reraises: the operand of the panic is the value a recover() returned — taken
+// directly, or parked in a struct field that is only ever assigned recover()
+// results (a worker goroutine hands its panic to the goroutine that waits for it).
+func reraises(pn *ssa.Panic) bool {
+	isRecover := func(v ssa.Value) bool {
+		for d := 0; d < 4; d++ {
+			switch x := v.(type) {
+			case *ssa.MakeInterface:
+				v = x.X
+				continue
+			case *ssa.ChangeInterface:
+				v = x.X
+				continue
+			case *ssa.Call:
+				b, ok := x.Call.Value.(*ssa.Builtin)
+				return ok && b.Name() == "recover"
+			}
+			break
+		}
+		return false
+	}
+	v := pn.X
+	if mi, ok := v.(*ssa.MakeInterface); ok {
+		v = mi.X
+	}
+	if isRecover(v) {
+		return true
+	}
+	own, fld, _, ok := loadedField(unspill(v))
+	if !ok || own == nil {
+		return false
+	}
+	n, all := 0, true
+	if guardProg == nil {
+		return false
+	}
+	for _, fn := range guardProg.RepoFuncs() {
+		if fnPkgPath(fn) != fnPkgPath(pn.Parent()) {
+			continue
+		}
+		eachInstr(fn, func(_ *ssa.BasicBlock, i ssa.Instruction) {
+			st, ok := i.(*ssa.Store)
+			if !ok {
+				return
+			}
+			o2, f2, _, ok := fieldOfAddr(st.Addr)
+			if !ok || o2 != own || f2 != fld {
+				return
+			}
+			n++
+			if !isRecover(st.Val) {
+				all = false
+			}
+		})
+	}
+	return n > 0 && all
+}
+
+// guardProg: the program runGuard is working on (for rules that need to look
+// at the rest of a package).
+var guardProg *Program
